@@ -64,6 +64,9 @@ func c11Explore(c *vlib.Ctx, filter func(name string) bool, keyPrefix string, bo
 		if s.quietGate {
 			parts = 14 // ~2000 executions of ~0.15 s each at deviation bound 1
 		}
+		if strings.HasPrefix(s.name, "S5d") {
+			parts = 12 // three threads: about 15 000 schedules with <= 2 preemptions; the cap applies per part
+		}
 		for part := 0; part < parts; part++ {
 			jb, _ := json.Marshal(c11Job{Scenario: s.name, Bound: b, MaxExec: maxExec, Part: part, Parts: parts})
 			jobs = append(jobs, string(jb))
